@@ -446,7 +446,7 @@ def hash_(sk):
     return sum((i + 1) * ALPHABET.index(m) for i, m in enumerate(sk))
 
 
-BUDGET = {"quick": None, "thorough": 20 * 60}
+BUDGET = {"quick": None, "thorough": 12 * 60}
 
 if __name__ == "__main__":
     from symx import runner
